@@ -16,5 +16,9 @@ CHECKS = {
         text="Unbounded theorems (induction over code-point lists, omega over Z) about a line-by-line Lean model of Strings.hpp: UTF-8 iteration offsets, SizeInCodePoints, Substr (in range / empty / out of range), split (join, no delimiter in pieces, count), IsInteger grammar, all StrRange relations against point-set semantics, Intersect, Merge. The model is tied to the header by an exhaustive-for-short-inputs differential run on every check.",
         note="Model hand-written; correspondence exhaustive for strings <= 3 (thorough 4) code points over an 8-symbol alphabet incl. 2/3/4-byte symbols and all ranges, all byte strings <= 5 over 6 symbols, all range pairs in [0,6]^4. TrimWhitespace is covered by the correspondence and the dropWhile oracle; its theorem is listed under partial until proved. int32 wrap-around not modelled.",
     ),
+    "C14": dict(
+        text="Lean model (transcription of CGraph.cpp incl. tombstones, index vectors, iterative 3-colour DFS with duplicate stack entries, worklists, Kosaraju second pass) with the mathematical digraph (paths as an inductive relation) as specification; theorems over all update histories (refinement of mutators, counts, reachability closures, cycle detection, topological order, loop groups = SCCs with a cycle) — those not yet proved are kept as `_statement` definitions and listed as partial in the evidence. Tie: exhaustive short histories + random long ones compared query-by-query with the model and with an independent closure-based digraph oracle.",
+        note="std::unordered_set iteration order is passed from the implementation to the model; the uid->slot hash map is modelled as a derived function; int32 index overflow not modelled. The loop-group defect of the pinned code (edges 1>3,1>2,2>1) was found by this check and repaired by a fix: commit.",
+    ),
 }
-NOT_APPLICABLE = {p: PENDING for p in ["C01","C02","C03","C04","C05","C06","C07","C08","C09","C10","C11","C12","C13","C14","C15","C16","C17","C18","C19"]}
+NOT_APPLICABLE = {p: PENDING for p in ["C01","C02","C03","C04","C05","C06","C07","C08","C09","C10","C11","C12","C13","C15","C16","C17","C18","C19"]}
